@@ -32,7 +32,12 @@ _add("C08", *_REACH, "Pfdl.Props.C08.accept_iff", "Pfdl.Props.C08.accept_iff_par
      "Pfdl.Props.C08.invalid_inert")
 # C09 at the net layer: no look-up error (IndexError / KeyError / ValueError branches of the code-level model unreachable)
 _add("C09", "Pfdl.Net.C09.no_lookup_error_partial", "Pfdl.Net.C09.accepted_no_lookup_error_partial",
-     "Pfdl.Net.C09.construction_raises_nothing", "Pfdl.Net.generate_ginv", "Pfdl.Net.gkeeps", "Pfdl.Net.skeeps")
+     "Pfdl.Net.C09.construction_raises_nothing", "Pfdl.Net.generate_ginv", "Pfdl.Net.gkeeps", "Pfdl.Net.skeeps",
+     # every program whose calls resolve, parallel loops and the net rebuilt at run time included
+     "Pfdl.Net.C09.construction_raises_nothing_all", "Pfdl.Net.C09.construction_callbacks_resolve", "Pfdl.Net.akeeps",
+     "Pfdl.Net.C09.step_safe_all", "Pfdl.Net.C09.history_safe_all", "Pfdl.Net.C09.no_lookup_error",
+     "Pfdl.Net.C09.never_index_or_key_error", "Pfdl.Net.C09.accepted_no_lookup_error",
+     "Pfdl.Props.C09.accepted_condition_logic_ok", "Pfdl.Props.C09.accepted_while_logic_ok")
 # C14 / C08 at the net layer, for every program: the awaited completions are pairwise different
 _add("C14", "Pfdl.Net.C14.awaited_completions_distinct", "Pfdl.Net.C14.delivered_not_awaited", "Pfdl.Net.ikeeps")
 _add("C08", "Pfdl.Net.C14.delivered_not_awaited", "Pfdl.Net.C14.awaited_completions_distinct")
